@@ -1,7 +1,7 @@
 (* C12 - the three extractors resolve every plainly spelled path to the same member
    (C12_packaging_independent_open / _exists) - proofs over model/PathMapC12.v. *)
 From Coq Require Import List String Ascii Bool Arith Lia.
-From RC Require Import lib.PyStr gen.HarvestC12Consts model.PathMapC12 model.HarvestC12 proofs.StrC12P.
+From RC Require Import lib.PyStr gen.HarvestC12Consts model.PathMapC12 model.HarvestC12 proofs.StrC12P proofs.PathMapC12P.
 Import ListNotations.
 Open Scope string_scope.
 Open Scope nat_scope.
@@ -711,4 +711,19 @@ Proof.
   split; [exact wf_demo|]. split; [plain_tac|]. split; [plain_tac|]. split; [constructor|].
   split; [split; [discriminate | repeat constructor; plain_tac]|].
   repeat split; vm_compute; reflexivity.
+Qed.
+
+
+(* setup.cfg-only projects: the located setup.cfg is found again from the cwd the code sets up,
+   in all three packagings, for every project *)
+Theorem cfg_only_found fs lead td zt zd base k c :
+  wf_files fs -> plain_comp lead -> plain_comp base -> lookup "setup.cfg" fs = Some c ->
+  exists_ k (mkProject fs lead td zt zd) (fake_root k base)
+          (start_cwd k (fake_root k base) lead false) "setup.cfg" = Some true.
+Proof.
+  intros W Hl Hb L. rewrite start_cwd_any.
+  apply (packaging_independent_exists_partial fs lead td zt zd base [] ["setup.cfg"] SpRel k c W Hl Hb).
+  - constructor.
+  - split; [discriminate | repeat constructor; plain_tac].
+  - exact L.
 Qed.
